@@ -3,6 +3,7 @@ package checks
 import (
 	"encoding/json"
 	"fmt"
+	"google.golang.org/protobuf/types/descriptorpb"
 	"strings"
 	"time"
 
@@ -165,6 +166,30 @@ func c15Variation(c *core.Ctx, plug, variation string, s, other *schema.Schema, 
 		if d := diffOutcome(ref, o, nil, true); d != "" {
 			return "file_to_generate reversed: " + d, nil
 		}
+	case "single_file":
+		// per-file invocation (protoc a.proto; protoc b.proto) against all files in one invocation: whatever a
+		// single-file run emits must be byte-identical to the same file of the joint run
+		if len(base.FileToGenerate) < 2 {
+			return "", nil
+		}
+		for _, fn := range base.FileToGenerate {
+			one := proto.Clone(base).(*pluginpb.CodeGeneratorRequest)
+			one.FileToGenerate = []string{fn}
+			var src []*descriptorpb.FileDescriptorProto
+			for _, fd := range one.SourceFileDescriptors {
+				if fd.GetName() == fn {
+					src = append(src, fd)
+				}
+			}
+			one.SourceFileDescriptors = src
+			o, err := runOutcome(c, plug, one, nil)
+			if err != nil {
+				return err.Error(), nil
+			}
+			if d := diffOutcome(o, ref, nil, false); d != "" {
+				return fmt.Sprintf("%s generated alone vs together with the package's other files: %s", fn, d), nil
+			}
+		}
 	case "param_spelling":
 		alt, err := schema.Request(paramAlt, s)
 		if err != nil {
@@ -183,7 +208,7 @@ func c15Variation(c *core.Ctx, plug, variation string, s, other *schema.Schema, 
 	return "", nil
 }
 
-var c15Variations = []string{"rerun", "extra_files", "multi_invocation", "permute_files", "param_spelling"}
+var c15Variations = []string{"rerun", "extra_files", "multi_invocation", "permute_files", "single_file", "param_spelling"}
 
 // spellings returns semantics-preserving parameter pairs for a plugin.
 func c15Spellings(plug string) [][2]string {
@@ -205,7 +230,7 @@ func runC15(c *core.Ctx) error {
 	avoid := c.KF.Avoid()
 	total := c.Pick(40, 1500)
 	chunks := c.Pick(4, 30)
-	c.Ev.Coverage.Rule = "cases = (valid schema from the full profile, second schema with disjoint package) x plugin x variation in {rerun in fresh processes at GOMAXPROCS 1/4/16 (fresh map seeds), extra unrelated files in proto_file, single- vs multi-package invocation in both orders, file_to_generate reversed, semantics-preserving parameter spellings}; oracle = byte equality per generated file name. Non-trivial = schema emitting >= 2 files for the plugin, or with >= 3 headers, >= 2 enums, a second file, or unwrap; distinct by (schema, plugin, variation)."
+	c.Ev.Coverage.Rule = "cases = (valid schema from the full profile, second schema with disjoint package) x plugin x variation in {rerun in fresh processes at GOMAXPROCS 1/4/16 (fresh map seeds), extra unrelated files in proto_file, single- vs multi-package invocation in both orders, file_to_generate reversed, each file of a multi-file package generated alone vs all together, semantics-preserving parameter spellings}; oracle = byte equality per generated file name. Non-trivial = schema emitting >= 2 files for the plugin, or with >= 3 headers, >= 2 enums, a second file, or unwrap; distinct by (schema, plugin, variation)."
 	c.Ev.Assumptions = []string{"map-order nondeterminism is probabilistic: each rerun is a fresh process with a fresh hash seed", "only parameter spellings the plugins document as equivalent are compared"}
 	prof := schema.ProfileFull(avoid)
 	for k := 0; k < chunks; k++ {
